@@ -173,10 +173,17 @@ func (s *swamp) PatchFields(key string, ops []msgpackpatch.Op, condition *msgpac
 		seed = emptyMapMsgpack
 	}
 	if opts.CreateIfNotExist {
-		if _, err := msgpackpatch.Parse(seed); err != nil {
+		seedSkel, err := msgpackpatch.Parse(seed)
+		if err != nil {
 			return PatchFieldsResult{
 				Status: PatchStatusTypeMismatch,
 				Error:  "InitialMsgpackOnCreate: " + err.Error(),
+			}, nil
+		}
+		if seedSkel.Kind != msgpackpatch.KindMap {
+			return PatchFieldsResult{
+				Status: PatchStatusTypeMismatch,
+				Error:  "InitialMsgpackOnCreate: not a msgpack map",
 			}, nil
 		}
 	}
